@@ -67,3 +67,74 @@ Proof. vm_compute. reflexivity. Qed.
 
 Example stable_case : batch_after false [1; 2; 3]%N [7; 8; 9; 10]%N = ([1; 2; 3]%N, [1; 2; 3]%N).
 Proof. vm_compute. reflexivity. Qed.
+
+(** ** the batch is what arrived *)
+Lemma set_arr_same : forall h a f, a < length h -> nth a (set_arr a f h) [] = f (nth a h []).
+Proof.
+  induction h as [|c r IH]; intros a f Ha; [cbn in Ha; lia|].
+  destruct a as [|a]; cbn; [reflexivity|]. apply IH. cbn in Ha. lia.
+Qed.
+
+Lemma set_nth_length : forall l i x, length (set_nth i x l) = length l.
+Proof. induction l as [|y l IH]; intros [|i] x; cbn; try reflexivity. rewrite IH. reflexivity. Qed.
+
+Lemma firstn_set_nth : forall l n x, n < length l -> firstn (S n) (set_nth n x l) = firstn n l ++ [x].
+Proof.
+  induction l as [|y l IH]; intros n x Hn; [cbn in Hn; lia|].
+  destruct n as [|n]; [reflexivity|]. cbn [set_nth]. rewrite !firstn_cons. cbn [app]. f_equal. apply IH. cbn in Hn. lia.
+Qed.
+
+Lemma firstn_snoc_pad : forall (A : list N) x R n, n = S (length A) -> firstn n (A ++ x :: R) = A ++ [x].
+Proof. intros A x R n H; subst n. induction A as [|a A IH]; cbn; [reflexivity|]. f_equal. exact IH. Qed.
+
+Definition J (st : qstate) (xs : list N) : Prop :=
+  match q st with
+  | None => xs = []
+  | Some s => arr s < length (hp st) /\ len s <= cap s /\ length (cells (hp st) (arr s)) = cap s /\ view (hp st) s = xs
+  end.
+
+Lemma view_length : forall h s, len s <= length (cells h (arr s)) -> length (view h s) = len s.
+Proof. intros h s H. unfold view. rewrite firstn_length. lia. Qed.
+
+Lemma append_J : forall st xs x, J st xs -> J (append st x) (xs ++ [x]).
+Proof.
+  intros [h [s|]] xs x H; unfold J, append in *; cbn [q hp] in *.
+  - destruct H as (Ha & Hl & Hc & Hv).
+    destruct (Nat.ltb (len s) (cap s)) eqn:E; cbn [q hp arr len cap].
+    + apply Nat.ltb_lt in E. rewrite set_arr_length.
+      assert (Hcell : cells (set_arr (arr s) (set_nth (len s) x) h) (arr s) = set_nth (len s) x (cells h (arr s))).
+      { unfold cells. apply set_arr_same. exact Ha. }
+      repeat split; try lia.
+      * rewrite Hcell, set_nth_length. exact Hc.
+      * unfold view; cbn [len arr]. rewrite Hcell. rewrite firstn_set_nth by lia. unfold view in Hv. rewrite Hv. reflexivity.
+    + apply Nat.ltb_ge in E.
+      assert (Hlen : length (view h s) = len s) by (apply view_length; lia).
+      assert (Hcell : cells (h ++ [view h s ++ x :: repeat 0%N (2 * cap s + 1 - S (len s))]) (length h)
+                      = view h s ++ x :: repeat 0%N (2 * cap s + 1 - S (len s))).
+      { unfold cells. rewrite app_nth2 by lia. rewrite Nat.sub_diag. reflexivity. }
+      rewrite app_length; cbn [length]. repeat split; try lia.
+      * rewrite Hcell, app_length; cbn [length]. rewrite repeat_length, Hlen. lia.
+      * unfold view at 1; cbn [len arr]. rewrite Hcell.
+        rewrite firstn_snoc_pad by lia. rewrite Hv. reflexivity.
+  - subst xs. rewrite app_length; cbn [length app]. unfold view, cells; cbn [arr len cap].
+    rewrite app_nth2 by lia. rewrite Nat.sub_diag. cbn. repeat split; try lia; reflexivity.
+Qed.
+
+Lemma appends_J : forall ys st xs, J st xs -> J (appends st ys) (xs ++ ys).
+Proof.
+  induction ys as [|y ys IH]; intros st xs H; [rewrite app_nil_r; exact H|].
+  unfold appends in *; cbn [fold_left]. replace (xs ++ y :: ys) with ((xs ++ [y]) ++ ys) by (rewrite <- app_assoc; reflexivity).
+  apply IH. apply append_J. exact H.
+Qed.
+
+(** the batch is exactly what arrived before it was taken, and stays so *)
+Theorem batch_is_what_arrived : forall before after, batch_after false before after = (before, before).
+Proof.
+  intros before after.
+  assert (S := batch_is_stable before after).
+  assert (Hj : J (appends empty before) ([] ++ before)) by (apply appends_J; reflexivity).
+  cbn [app] in Hj. unfold batch_after, take in *. set (st := appends empty before) in *.
+  unfold J in Hj. destruct (q st) as [s|] eqn:E; cbv beta iota zeta in *; cbn [fst snd] in *.
+  - destruct Hj as (_ & _ & _ & Hv). rewrite <- S, Hv. reflexivity.
+  - subst before. reflexivity.
+Qed.
